@@ -267,9 +267,54 @@ unsafe fn on_dealloc(p: *mut u8, layout: Layout) -> Free {
     }
 }
 
+// ---------------------------------------------------------------------------------------------
+// allocation trap (C11): a thread may ask to be handed to a callback at its next allocation of one
+// exact size — a yield point inside code that cannot carry a hook (e.g. `Key::clone()` between the
+// gate load and `try_send` of the TCP exporter's `push_metric`). Off by default (one relaxed load).
+static TRAP_ON: AtomicBool = AtomicBool::new(false);
+static TRAP_FN: AtomicUsize = AtomicUsize::new(0);
+thread_local! {
+    static TRAP_SIZE: Cell<usize> = const { Cell::new(0) };
+}
+
+/// installs (or removes) the process-wide trap callback
+pub fn set_trap_fn(f: Option<fn()>) {
+    TRAP_FN.store(f.map_or(0, |f| f as usize), Ordering::SeqCst);
+    TRAP_ON.store(f.is_some(), Ordering::SeqCst);
+}
+
+/// the calling thread's next allocation of exactly `size` bytes calls the trap callback (one shot)
+pub fn arm_trap(size: usize) {
+    TRAP_SIZE.with(|c| c.set(size));
+}
+
+/// returns whether the trap was still armed (i.e. did not fire)
+pub fn disarm_trap() -> bool {
+    TRAP_SIZE.with(|c| c.replace(0) != 0)
+}
+
+#[inline]
+fn trap_check(size: usize) {
+    if size == 0 {
+        return;
+    }
+    let hit = TRAP_SIZE.try_with(|c| if c.get() == size { c.set(0); true } else { false }).unwrap_or(false);
+    if hit {
+        let raw = TRAP_FN.load(Ordering::SeqCst);
+        if raw != 0 {
+            // SAFETY: only `fn()` pointers are ever stored
+            let f: fn() = unsafe { std::mem::transmute(raw) };
+            f();
+        }
+    }
+}
+
 unsafe impl GlobalAlloc for Tracking {
     unsafe fn alloc(&self, layout: Layout) -> *mut u8 {
         let p = System.alloc(layout);
+        if TRAP_ON.load(Ordering::Relaxed) {
+            trap_check(layout.size());
+        }
         if INSTALLED.load(Ordering::Relaxed) {
             on_alloc(p, layout.size());
         }
